@@ -66,8 +66,12 @@ def run(A, R: Report, thorough: bool):
             f'TestChain._prepare runs {seq} (base pipeline: {STAGES}): missing inputs / cycles / parameters would not surface at construction as in a real chain', where=where(fprep))
     handlers = [n for n in A.typer.own_nodes(fprep) if isinstance(n, ast.ExceptHandler)]
     R.check(not handlers, 'R19.1', 'TestChain._prepare: errors', key_of('handlers', len(handlers)), 'construction errors propagate', 'an exception handler in TestChain._prepare can hide a missing input / parameter that a real chain reports at construction', where=where(fprep))
-    assign_ok = any(isinstance(n, ast.Assign) and src(n.targets[0]) == 'self.tasks' and '_create_tasks' in src(n.value) for n in A.typer.own_nodes(fprep))
-    dep_ok = any(isinstance(n, ast.Call) and isinstance(n.func, ast.Attribute) and n.func.attr == '_process_dependencies' and n.args and src(n.args[0]) == 'self.tasks' for n in A.typer.own_nodes(fprep))
+    tstores = [n for n in inl(A, fprep) if isinstance(n, ast.Assign) and any(src(t_) == 'self.tasks' for t_ in n.targets)]
+    created = [subst_single_assign(A, fprep, n.value) for n in tstores]
+    assign_ok = bool(created) and all(isinstance(v, ast.Call) and src(v.func).endswith('_create_tasks') for v in created)
+    deps = [n for n in inl(A, fprep) if isinstance(n, ast.Call) and isinstance(n.func, ast.Attribute) and n.func.attr == '_process_dependencies' and n.args]
+    # what is wired is what was stored: self.tasks itself, or the local that holds the created dict
+    dep_ok = bool(deps) and all(src(d.args[0]) == 'self.tasks' or any(subst_single_assign(A, fprep, d.args[0]) is v for v in created) for d in deps)
     R.check(assign_ok and dep_ok, 'R19.1', 'TestChain._prepare: wiring', key_of('wiring', assign_ok, dep_ok), 'created tasks are the chain\'s tasks and are wired', 'the created tasks are not the ones that get wired / exposed', where=where(fprep))
 
     # ---- R19.2
